@@ -106,6 +106,7 @@ func TestCheck(t *testing.T) {
 	layer3Profile(r)
 	layer3Stack(r)
 	layer3StackSlow(r)
+	layer3StackNormalise(r)
 	layer5Delivery(r)
 	waitBinary()
 
@@ -134,6 +135,7 @@ func TestCheck(t *testing.T) {
 	r.Require("l2_slow_handler_window_drop", 8)
 	r.Require("l3_stack_slow_handler_dropped", 4)
 	r.Require("l3_stack_v4mapped_requests", 200)
+	r.Require("l3_stack_normalise_weight_drop", 8)
 	r.Require("l5_backend_allowlisted_by_zero_prefix", 6)
 	r.Require("l5_backend_allowlisted_pass_over_limit", 30)
 	r.Require("l5_backend_not_allowlisted_drop", 20)
@@ -143,6 +145,8 @@ func TestCheck(t *testing.T) {
 	r.Require("l5_backend_stack_profile_drop", 8)
 	r.Require("l4_binary_in_backoff_after_period", 2)
 	r.Require("l4_binary_served_after_duration", 4)
+	r.Require("l4_binary_weight_drop_udp", 2)
+	r.Require("l4_binary_weight_drop_tcp", 2)
 	r.Require("l3_profile_decided", 20)
 	r.Require("l1_steps_limit_zero", 10000)
 	r.Require("l3_profile_rps0_drop", 6)
@@ -578,6 +582,7 @@ type bmon struct {
 	// response of a request is counted with that request's context).
 	lastCtx        context.Context
 	lastStart      int64
+	lastSpan       span
 	respWithReqCtx bool
 	// keyPrefix is put in front of every violation key of this monitor.
 	keyPrefix string
@@ -776,6 +781,7 @@ func (m *bmon) query(ip netip.Addr, qt uint16) (dropped bool) {
 	m.lastCtx, m.lastStart = ctx, b
 	drop, allow, err := m.l.IsRateLimited(ctx, req, ip)
 	a := m.now()
+	m.lastSpan = span{b, a}
 	m.r.Bucket("l2_queries", 1)
 	rec := traceRec{Op: "query", IP: ip.String(), QType: qtypeName[qt], BeforeU: m.us(b), AfterU: m.us(a), Drop: &drop, Allow: &allow}
 	defer func() { m.trace = append(m.trace, rec) }()
@@ -966,11 +972,28 @@ func (m *bmon) countResp(ip netip.Addr, size int) {
 	lagged := start != 0 && b-start > eps
 	m.l.CountResponses(ctx, resp, ip)
 	a := m.now()
-	n, ivl, k := m.params(ip)
 	op := "count_response"
 	if lagged {
 		op = fmt.Sprintf("count_response[request received %s earlier]", time.Duration(b-start).Round(time.Millisecond))
 	}
+	m.modelResp(ip, wire, kmin, kmax, b, a, lagged, op)
+}
+
+// noteResponse tells the model that the last query of ip was answered with a
+// response whose length (as the limiter sees it) lies in [sizeLo, sizeHi]; the
+// system under observation counts that response itself (middleware, program).
+func (m *bmon) noteResponse(ip netip.Addr, sizeLo, sizeHi int) {
+	est := int(m.cfg.Est)
+	kmin, kmax := sizeLo/est, (sizeHi+est-1)/est
+	if sizeHi < est {
+		kmin, kmax = 0, 0
+	}
+	m.modelResp(ip, sizeLo, kmin, kmax, m.lastSpan.B, m.lastSpan.A, false, "response_of_last_query")
+}
+
+// modelResp adds the events of one response to the model.
+func (m *bmon) modelResp(ip netip.Addr, wire, kmin, kmax int, b, a int64, lagged bool, op string) {
+	n, ivl, k := m.params(ip)
 	rec := traceRec{Op: fmt.Sprintf("%s(%d..%d events)", op, kmin, kmax), IP: ip.String(), Size: wire, BeforeU: m.us(b), AfterU: m.us(a)}
 	ks := m.key(k)
 	allOpt := m.allowed(ip)
@@ -1833,11 +1856,22 @@ type recRW struct {
 	local, remote net.Addr
 	mu            sync.Mutex
 	writes        []*dns.Msg
+	// normalise makes WriteMsg treat the message the way the plain-DNS writers
+	// of dnsserver do (normalize is unexported there): the very message that
+	// was passed in is truncated to 512 bytes for a request without EDNS and
+	// switched to name compression.
+	normalise bool
 }
 
 func (w *recRW) LocalAddr() net.Addr  { return w.local }
 func (w *recRW) RemoteAddr() net.Addr { return w.remote }
-func (w *recRW) WriteMsg(_ context.Context, _, resp *dns.Msg) error {
+func (w *recRW) WriteMsg(_ context.Context, req, resp *dns.Msg) error {
+	if w.normalise {
+		if req.IsEdns0() == nil {
+			resp.Truncate(dns.MinMsgSize)
+		}
+		resp.Compress = true
+	}
 	w.mu.Lock()
 	w.writes = append(w.writes, resp)
 	w.mu.Unlock()
@@ -1853,9 +1887,17 @@ type stack struct {
 	// (::ffff:a.b.c.d), as on a dual-stack [::]:53 listener.
 	mapped   bool
 	mappedRq atomic.Int64
-	errs     atomic.Int64
-	prof     *agd.Profile
-	profIPs  map[netip.Addr]bool
+	// normalise: responses are written through a normalising writer;
+	// manyA > 0: the terminal handler answers with so many A records under a
+	// long owner name (large without name compression, small with it).
+	normalise bool
+	manyA     atomic.Int64
+	// producedLen is the length of the last response as the terminal handler
+	// produced it.
+	producedLen atomic.Int64
+	errs        atomic.Int64
+	prof        *agd.Profile
+	profIPs     map[netip.Addr]bool
 }
 
 func discardLogger() *slog.Logger { return slog.New(slog.NewTextHandler(io.Discard, nil)) }
@@ -1922,7 +1964,20 @@ func newStack(t testing.TB, global ratelimit.Interface, profLimiter agd.Ratelimi
 			time.Sleep(time.Duration(d))
 		}
 		resp, _ := mkResp(req.Question[0].Qtype, int(s.respSize.Load()))
+		if n := int(s.manyA.Load()); n > 0 {
+			resp = new(dns.Msg)
+			resp.SetReply(req)
+			resp.Compress = false
+			owner := strings.Repeat("a", 50) + "." + req.Question[0].Name
+			for x := 0; x < n; x++ {
+				resp.Answer = append(resp.Answer, &dns.A{
+					Hdr: dns.RR_Header{Name: owner, Rrtype: dns.TypeA, Class: dns.ClassINET, Ttl: 10},
+					A:   net.IP{192, 0, 2, byte(1 + x)},
+				})
+			}
+		}
 		resp.Id = req.Id
+		s.producedLen.Store(int64(resp.Len()))
 		return rw.WriteMsg(ctx, req, resp)
 	})
 	handlers, err := dnssvc.NewHandlers(ctxBG, &dnssvc.HandlersConfig{
@@ -1992,7 +2047,7 @@ func (s *stack) serve(enc bool, ip netip.Addr, qt uint16, id uint16) (ran int64,
 		local = &net.UDPAddr{IP: net.IP{94, 149, 14, 14}, Port: port}
 		remote = &net.UDPAddr{IP: rip, Port: 40000 + int(id%1000)}
 	}
-	rw := &recRW{local: local, remote: remote}
+	rw := &recRW{local: local, remote: remote, normalise: s.normalise}
 	req := mkReq(qt)
 	req.Id = id
 	before := s.terminal.Load()
@@ -2183,6 +2238,76 @@ func stackSlowAttempt(r *vkit.Run, st *stack, gl *stackLimiter, c bcfg, ip netip
 		}
 	}
 }
+
+// layer3StackNormalise: the middleware behind a writer that normalises the
+// message in place as the real plain-DNS writers do.  A response that is three
+// estimates long as the handlers produced it (and less than one estimate once
+// compressed / truncated for the client) must be charged 1+3 events.
+func layer3StackNormalise(r *vkit.Run) {
+	cases := r.N(8, 32)
+	for i := 0; i < cases; i++ {
+		guard(r, "stack-normalise", i, func() {
+			g := r.Rand("l3norm", i)
+			const est, k = 300, 3
+			gn := uint(6 + g.IntN(2))
+			c := bcfg{N4: gn, N6: gn, I4: hour, I6: hour, Period: hour, Duration: hour, K4: 24, K6: 48, Count: noBackoff, Est: est}
+			inner, _ := newBackoff(c)
+			gl := &stackLimiter{inner: inner}
+			s, err := newStack(theT, gl, agd.GlobalRatelimiter{}, nil)
+			if err != nil {
+				r.Inconclusive("layer 3: dnssvc.NewHandlers failed: " + err.Error())
+				return
+			}
+			s.normalise, s.mapped = true, i%2 == 0
+			s.respSize.Store(50)
+			ip := rand4(g)
+			if i%3 == 2 {
+				ip = rand6(g)
+			}
+			m := newMon(r, "stack-normalising-writer", i, c)
+			m.keyPrefix = "stack:normalising-writer:"
+			m.l = &stackAsLimiter{s: s}
+			// records: owner 50+1+13 bytes -> 78 bytes each uncompressed, 16 compressed
+			nrec := (k*est + est/3 - 29) / 78
+			s.manyA.Store(int64(nrec))
+			dropped := m.query(ip, dns.TypeA)
+			s.manyA.Store(0)
+			respLen := int(s.producedLen.Load())
+			if dropped || respLen < k*est {
+				r.Bucket("l3_stack_normalise_setup_failed", 1)
+				m.finish(fmt.Sprintf("L3norm/%d", i))
+				return
+			}
+			m.trace = append(m.trace, traceRec{Op: "large answer through a normalising writer", Size: respLen})
+			m.noteResponse(ip, respLen, respLen)
+			for j := 0; j < int(gn); j++ {
+				m.query(ip, dns.TypeA)
+				if m.last.mustDrop && m.last.drop {
+					r.Bucket("l3_stack_normalise_weight_drop", 1)
+				}
+			}
+			if i == 0 {
+				r.Sample(map[string]any{"layer": 3, "family": "stack-normalising-writer", "global": c.witness(), "ops": m.trace})
+			}
+			m.finish(fmt.Sprintf("L3norm/n%d/v6=%v/mapped=%v", gn, ip.Is6(), s.mapped))
+		})
+	}
+}
+
+// stackAsLimiter lets the layer-2 monitor drive the middleware: a query is
+// "dropped" when the terminal handler did not run and nothing was written.
+type stackAsLimiter struct {
+	s  *stack
+	id uint16
+}
+
+func (l *stackAsLimiter) IsRateLimited(_ context.Context, req *dns.Msg, ip netip.Addr) (drop, allow bool, err error) {
+	l.id++
+	ran, writes, _ := l.s.serve(false, ip, req.Question[0].Qtype, l.id)
+	return ran == 0 && writes == 0, false, nil
+}
+
+func (l *stackAsLimiter) CountResponses(context.Context, *dns.Msg, netip.Addr) {}
 
 func layer3Stack(r *vkit.Run) {
 	cases := r.N(18, 240)
